@@ -123,10 +123,45 @@ def overlap(p, q):
     return True
 
 
+def pointer_aliases(fn, params):
+    """local pointer variables assigned (also through ?:) an expression based on a parameter: {local: parameter}"""
+    out = {}
+    for el in fn.all_elements():
+        for sub in ir.walk(fn, el.e):
+            if sub[0] == "d" and sub[2] is not None:
+                v, rhs = sub[1], sub[2]
+            elif sub[0] == "=" and isinstance(ir.strip_casts(sub[1]), list) and ir.strip_casts(sub[1])[0] == "v":
+                v, rhs = ir.strip_casts(sub[1])[1], sub[2]
+            else:
+                continue
+            if fn.vars[v]["k"] == "p" or fn.vars[v].get("pc") is None:
+                continue        # not a pointer-typed local
+            cands = []
+            r = ir.peel(fn, rhs)
+            if isinstance(r, list) and r and r[0] == "?" and len(r) == 4:
+                cands = [r[2], r[3]]
+            else:
+                cands = [rhs]
+            for c in cands:
+                b = ir.base_var(fn, c)
+                if b in params and b != v:
+                    out.setdefault(v, b)
+    return out
+
+
 def node_effects(prog, fn, e, outs, ins):
     """(reads {(var, field)}, writes {(var, field)}, copies {(dst var, src var)}) of one CFG element"""
     reads, writes, copies = set(), set(), set()
     kinds = {v: handle_kind(fn, v)[0] for v in set(outs) | set(ins)}
+    pal = getattr(fn, "_ptr_alias", None)
+    if pal is None:
+        pal = pointer_aliases(fn, set(outs) | set(ins))
+        fn._ptr_alias = pal
+    _access = globals()["access"]
+
+    def access(fn_, ex):        # local view that sees through pointer aliases of the parameters
+        v, fld = _access(fn_, ex)
+        return pal.get(v, v), fld
 
     def rd(v, fld, expr=None):
         if v in ins:
